@@ -85,6 +85,17 @@ CLAIMED = {
         "checks, not here. evfilt.c was repaired (start equality instead of strict range overlap).",
    technique="Lean 4 proof (refinement of the two-pointer walk to a list filter) + differential correspondence check",
    design="§5 C02"),
+ "C07": dict(
+   text="Lean theorems (Echse.Props.C07) about the transcribed model of the zone table search, the range cache, the "
+        "local->UTC fixed point and echs_instant_utc/loc, for EVERY strictly increasing transition table (not per "
+        "zone): the search terminates and finds the enclosing range, the cache is transparent, UTC->local->UTC is the "
+        "identity and local->UTC inverts it for unambiguous wall-clock times. The model is fed the v1 table of each "
+        "installed zone (independent Python reader) and compared with the C code on conversions at both sides of "
+        "transitions in evolving cache states; glibc with TZ=<zone> judges the implementation's answers directly.",
+   note="Trusted: Lean kernel; harness hx_cal.c; TZif parsing (__conv_zif) and the tzob interning/MFU cache are not "
+        "modelled (exercised only); glibc as oracle; occurrence-level correction in refill() belongs to C01/C16's harness.",
+   technique="Lean 4 proof (induction on the bisection, case analysis of the two-step fixed point) + differential correspondence check against all installed zones",
+   design="§5 C07"),
 }
 
 checks = []
